@@ -25,10 +25,10 @@ class _Cfg:
 
 @harness(
     "C05",
-    dom={"flavour": (0, 1), "outcome": (0, 4), "sends": (0, 2)},
+    dom={"flavour": (0, 1), "outcome": (0, 5), "sends": (0, 2)},
     witnesses=[{"flavour": 0, "outcome": 1, "sends": 1}, {"flavour": 1, "outcome": 0, "sends": 0}],
     budget=40,
-    bounds="_handle of both task-group modules x application outcome {returns, raises Exception, raises after n sends, raises ExceptionGroup, raises KeyError subclass} x 0..2 sends before the outcome",
+    bounds="_handle of both task-group modules x application outcome {returns, raises Exception, raises after n sends, raises ExceptionGroup, raises LookupError, ends with asyncio.CancelledError (asyncio only)} x 0..2 sends before the outcome",
     encodes=["hypercorn/asyncio/task_group.py::_handle", "hypercorn/trio/task_group.py::_handle"],
     stubs=["driven coroutine-by-coroutine on the tier-B scheduler (no event loop)"],
 )
@@ -39,9 +39,11 @@ def handle_wrapper(flavour: int, outcome: int, sends: int) -> bool:
     """
     enter()
     flavour = conc(flavour, 0, 1)
-    outcome = conc(outcome, 0, 4)
+    outcome = conc(outcome, 0, 5)
     sends = conc(sends, 0, 2)
     handle = atg._handle if flavour == 0 else ttg._handle
+    if outcome == 5 and flavour == 1:
+        return done(True, skipped="trio's Cancelled cannot be raised outside a cancel scope of the real runtime")
     cfg = _Cfg()
     got = []
 
@@ -57,6 +59,12 @@ def handle_wrapper(flavour: int, outcome: int, sends: int) -> bool:
             raise ExceptionGroup("eg", [ValueError("a"), KeyError("b")])
         if outcome == 4:
             raise LookupError("lookup")
+        if outcome == 5:
+            # the application awaited something that was cancelled (e.g. an inner task): it ends with the
+            # runtime's cancellation exception without the connection itself being torn down
+            import asyncio
+
+            raise asyncio.CancelledError()
 
     async def receive():
         return {}
@@ -64,7 +72,11 @@ def handle_wrapper(flavour: int, outcome: int, sends: int) -> bool:
     s = Sched()
     t = s.spawn(handle(app, cfg, {"type": "http"}, receive, send, None, None), "handle")
     s.run()
-    raised = outcome != 0
+    raised = outcome not in (0, 5)
+    if outcome == 5:
+        # cancellation propagates, but completion must still have been signalled to the stream
+        ok = t.done and got[sends:] != [] and got[sends] is None and cfg.log.count("exception") == 0
+        return done(ok, flavour=flavour, outcome=outcome, sends=sends)
     ok = t.done and t.exc is None
     ok = ok and cfg.log.count("exception") == (1 if raised else 0)
     nones = [m for m in got if m is None]
